@@ -31,7 +31,7 @@ LANG = ['k_lang', 'k_lang_und', 'k_lang_frag']
 PROPS = {
     'C01': {
         'title': 'Every sample in the file resolves to exactly the bytes and key flag submitted',
-        'technique': 'Verus contracts on the extracted writer, finalize_standard / finalize_fast_start (file == layout spec, offsets in schedule order) + lemma from layout to reader resolution; bounded Kani for two leaf contracts',
+        'technique': 'Verus contracts on the extracted writer, from_samples, compute_interleave_schedule and finalize_standard / finalize_fast_start (file == layout spec, offsets in schedule order) + lemma from layout to reader resolution; bounded Kani cross-checks of the two functions proved through std models',
         'text': 'Unbounded deductive proof (Verus) on the real text of write_video_sample(_with_dts)/write_audio_sample (one sample per accepted frame with the payload in MP4 framing and the key flag), '
                 'of the table boxes (exact bytes of stsz/stco/stsc/stss) and of finalize/finalize_standard/finalize_fast_start: the bytes written are ftyp, mdat (payload in schedule order) and moov '
                 'with chunk offsets equal to the absolute position of each sample (layout_ok), from which lemma_layout_resolves derives that every sample of both tracks resolves through its own tables to its payload.',
@@ -111,14 +111,14 @@ PROPS = {
         'text': 'wf() is established by new and preserved by every method; write_video appends exactly the submitted sample or changes nothing; flush_segment returns exactly spec_media_segment(queue, seq, first DTS) and empties the queue; '
                 'the location lemma proves that each sample is found at data_offset + preceding sizes.',
         'note': A4 + '; A2 for the init segment; fragments of 4 GiB or more are a recorded finding',
-        'kani': [], 'assumptions': [A4, A2],
+        'kani': ['kb_frag_accept', 'kb_frag_flush_ref'], 'assumptions': [A4, A2],
     },
     'C11': {
         'title': 'Fragmented segments carry a consistent timeline and a stable init segment',
         'technique': 'Verus: trun/tfdt field contracts, tfdt == first DTS of the segment, cached init segment == spec of the immutable config',
         'text': 'build_trun/build_tfdt are proved field by field; flush_segment is proved to write the first queued DTS as base decode time, from which the cross-segment statements follow by lemma; init_segment is proved equal to a '
                 'specification of the configuration whether cached or not.',
-        'note': 'duration / composition-offset exactness beyond 32 bits are recorded findings', 'kani': [], 'assumptions': [A4],
+        'note': 'duration / composition-offset exactness beyond 32 bits are recorded findings', 'kani': ['kb_frag_flush_ref'], 'assumptions': [A4],
     },
     'C12': {
         'title': 'No public entry point panics, overflows or hangs on any input',
@@ -147,7 +147,7 @@ PROPS = {
     },
     'C15': {
         'title': 'Audio and video samples are interleaved in timestamp order in the media data',
-        'technique': 'Verus: storage order == schedule order in both layouts (unbounded); schedule contract (permutation, per-track order, merge by timestamp) checked by bounded Kani',
+        'technique': 'Verus: schedule == the key-sorted rearrangement of both queues (unit sched: permutation, per-track order, merge by timestamp; std sort modelled by its documented postcondition) and storage order == schedule order in both layouts (unit layout); bounded Kani cross-check of the unmodified schedule function',
         'text': 'Both finalize functions are proved to store the j-th schedule entry directly after the j earlier ones and to assign its offset accordingly, using the same functional schedule in every pass; '
                 'the ordering clause of the schedule itself (sort_by_key) is outside Verus and is checked bounded.',
         'note': BOUNDED_LEAVES,
@@ -176,7 +176,7 @@ PROPS = {
         'text': 'build_udta_box / build_ilst_string_item are proved to emit exactly the name and date items with the UTF-8 bytes, or nothing; days_to_ymd is proved to invert days_from_civil up to year 9999; '
                 'the 26^3 language codes round-trip through the packer (both copies); metadata is proved to influence only the language fields and the udta child.',
         'note': 'format! rendering ({:04}/{:02}) and str::as_bytes are assumed std semantics (R10)',
-        'kani': LANG, 'assumptions': ['std formatting of {:04}/{:02} integers and str::as_bytes == UTF-8 bytes are assumed'],
+        'kani': LANG + ['kb_days_to_ymd'], 'assumptions': ['std formatting of {:04}/{:02} integers and str::as_bytes == UTF-8 bytes are assumed'],
     },
     'C19': {
         'title': 'Header boxes and configuration records follow their specifications\' layouts',
